@@ -335,6 +335,52 @@ fn main() {
         assert_eq!(o.len(), 5);
         events += 1;
     }
+    // 2b. vectors that own no allocation (fresh, empty clone, emptied and shrunk) shared by concurrent readers
+    let fresh: V = AnyVec::new::<String>();
+    let empty_clone = shared.clone_empty();
+    let mut shrunk = fill(3);
+    shrunk.clear();
+    shrunk.shrink_to_fit();
+    std::thread::scope(|s| {
+        for _ in 0..3 {
+            let (a, b, c) = (&fresh, &empty_clone, &shrunk);
+            s.spawn(move || {
+                for v in [a, b, c] {
+                    assert_eq!(v.as_bytes().len(), 0);
+                    assert_eq!(v.len(), 0);
+                    assert_eq!(v.capacity(), 0);
+                    assert!(v.get(0).is_none());
+                    assert_eq!(v.iter().len(), 0);
+                    assert_eq!(v.downcast_ref::<String>().unwrap().as_slice().len(), 0);
+                    assert!(v.downcast_ref::<String>().unwrap().as_ptr() as usize % std::mem::align_of::<String>() == 0);
+                    let c = v.clone();
+                    assert_eq!(c.len(), 0);
+                    let e = v.clone_empty();
+                    assert_eq!(e.element_typeid(), v.element_typeid());
+                    assert_eq!(e.element_layout(), v.element_layout());
+                }
+            });
+        }
+    });
+    events += 3;
+    // 2c. shared element references and iterators cloned and used from several threads
+    std::thread::scope(|s| {
+        let r = shared.at(1);
+        let it = shared.iter();
+        for _ in 0..2 {
+            let r2 = r.clone();
+            let it2 = it.clone();
+            s.spawn(move || {
+                assert_eq!(r2.downcast_ref::<String>().unwrap(), "s1");
+                assert_eq!(r2.as_bytes().len(), std::mem::size_of::<String>());
+                let n = it2.map(|e| e.downcast_ref::<String>().unwrap().len()).sum::<usize>();
+                assert_eq!(n, 8);
+                let l = r2.lazy_clone();
+                assert_eq!(l.downcast::<String>().unwrap(), "s1");
+            });
+        }
+    });
+    events += 2;
     // 3. exclusive handles sent to another thread inside a scope
     let mut v = fill(5);
     std::thread::scope(|s| {
